@@ -16,7 +16,7 @@ WidOpts  == {"none", "0", "1", "7", "12", "1000", "*6", "*-4"}
 PrecOpts == {"none", "0", "1", "5", "*3", "*-1", "dot"}
 Letters  == (65..90) \cup (97..122)
 AllVerbs == (Letters \ {84, 112, 119}) \cup {233, 19990, 128512}     \* not T p w; e-acute, CJK, emoji
-FewVerbs == {118, 100, 115, 120, 113, 90, 233}
+FewVerbs == {118, 100, 115, 120, 88, 113, 102, 90, 233}     \* v d s x X q f Z e-acute
 
 R    == [isInt |-> FALSE, num |-> 0]
 I(k) == [isInt |-> TRUE, num |-> k]
